@@ -1,2 +1,23 @@
-(* placeholder until SlabProofs.v is written *)
-From FV Require Import Slab.SlabModel.
+(* C03 -- slab pool: policy protocol -- map/unmap pairing, page accounting, poisoning. *)
+From Coq Require Import List NArith Bool.
+From FV Require Import Slab.SlabModel Slab.SlabProto.
+Import ListNotations.
+Local Open Scope N_scope.
+
+(* free / deallocate, in EVERY state: an unmap call names a region that is currently mapped, with exactly the base and
+   the length of the map() answer that produced it (the whole reservation, not the frame's payload). *)
+Theorem C03_free_unmaps_only_mapped_partial :
+  forall c s o b l,
+    (exists p, o = Free p) \/ (exists p n, o = Dealloc p n) ->
+    In (CUnmap b l) (cbs_of (step c s o)) -> In (b, l) (mapped s).
+Proof. exact step_free_unmaps_mapped. Qed.
+Print Assumptions C03_free_unmaps_only_mapped_partial.
+
+Definition c03_cfg : cfg := mkCfg 4096 4096 4096 4 false true 40 104.
+Example C03_unmap_nonvacuous :
+  let s := run c03_cfg [Alloc 5000 (MapRet 20480)] in
+  mapped s = [(20480, 16384)]
+  /\ cbs_of (step c03_cfg s (Free 24576)) =
+     [CAccess false 20480 40; CPoison 20480 40; CPoison 24576 8192; CUnmap 20480 16384]
+  /\ mapped (st_of (step c03_cfg s (Free 24576))) = [] /\ used (st_of (step c03_cfg s (Free 24576))) = 0.
+Proof. vm_compute. repeat split; reflexivity. Qed.
